@@ -502,10 +502,8 @@ theorem blind_plain_rotates {n size : Nat} (b block q : Nat) (hb : 1 ≤ b) (hb2
     (lut0 : List Vec) (hsh : Shaped n size lut0) (hsym : SymP b lut0) (b0 : Int) (a sk : List Int)
     (hq : (List.zip a sk).length = block * q)
     (hkey : ∀ blk ∈ chunksExact block (List.zip a sk).length (List.zip a sk), BinBlock blk) :
-    blindPlain b block lut0 (b0 :: a) sk = rotate (b0 + blkPhase (List.zip a sk)) lut0 := by
-  have hflat := chunksExact_flatten block hblock q (List.zip a sk) _ hq (Nat.le_refl _)
-  rw [blindPlain_eq, plain_fold_blocks b hb hb2 lut0 (symP_inRange b hb2 lut0 hsym) _ _ b0
-    (rotate_shaped b0 lut0 hsh) (rotate_sym b hb2 b0 lut0 hsym) rfl hkey, sum_flatten_phase, hflat]
+    blindPlain b block lut0 (b0 :: a) sk = rotate (b0 + blkPhase (List.zip a sk)) lut0 :=
+  blindPlain_rotates b block q hb hb2 hblock lut0 hsh hsym b0 a sk hq hkey
 
 /-- plain CGGI (`block = 1`): every key in `{0,1}^n` is a block key with blocks of one coefficient -/
 theorem blind_standard_rotates {n size : Nat} (b : Nat) (hb : 1 ≤ b) (hb2 : b ≤ 63) (lut0 : List Vec) (hsh : Shaped n size lut0)
